@@ -7,6 +7,8 @@ fn dispatch(ctx: &Ctx) {
         "C10" => vcore::c10::run(ctx),
         "C11" => vcore::c11::run(ctx),
         "C13" => vcore::c13::run(ctx),
+        "C18" => vcore::c18::run(ctx),
+        "C19" => vcore::c19::run(ctx),
         p => {
             eprintln!("unknown property {}", p);
             std::process::exit(2);
